@@ -873,11 +873,16 @@ func (m *model) usage() *SliceV {
 type region struct {
 	fd         *ast.FuncDecl
 	stmts      []ast.Stmt
-	compileLit *ast.FuncLit
+	compileLit ast.Node // the recursive emitter: a closure of the region, or a method of the writer object
 	printRule  *ast.FuncLit
 	printVar   types.Object // _print
-	jumpLit    *ast.FuncLit // printJump
+	jumpLit    ast.Node // printJump: a closure of the region, or a method of the writer
 	jumpVar    types.Object
+	// when the emitter prints through an object with methods instead of a local print closure:
+	// printVar is that object's variable, printMethod / jumpMethod its methods
+	printMethod *ast.FuncDecl
+	jumpMethod  *ast.FuncDecl
+	objVar      types.Object // the local holding the emitter object when the jump helper / emitter are its methods
 	compileVar types.Object
 	problems   []string
 	full       []ast.Stmt // Compile from its first statement to the end of the emission region
@@ -982,6 +987,75 @@ func findRegion(r *Repo) *region {
 			}
 		}
 	}
+	// … or an object of a type of the package whose method func(string, ...any) writes formatted
+	// text (a code writer): the local that holds it plays the print helper's part
+	if printObj == nil {
+		methodsOf := func(t types.Type) map[string]*ast.FuncDecl {
+			out := map[string]*ast.FuncDecl{}
+			if pt, ok := t.(*types.Pointer); ok {
+				t = pt.Elem()
+			}
+			named, ok := t.(*types.Named)
+			if !ok || named.Obj().Pkg() != p.Types {
+				return out
+			}
+			for _, f := range p.Syntax {
+				for _, d := range f.Decls {
+					md, ok := d.(*ast.FuncDecl)
+					if !ok || md.Recv == nil || md.Body == nil || len(md.Recv.List) != 1 {
+						continue
+					}
+					if recvTypeName(md.Recv.List[0].Type) == named.Obj().Name() {
+						out[md.Name.Name] = md
+					}
+				}
+			}
+			return out
+		}
+		for _, st := range fd.Body.List[start:] {
+			as, ok := st.(*ast.AssignStmt)
+			if !ok || printObj != nil {
+				continue
+			}
+			for _, l := range as.Lhs {
+				id, _ := l.(*ast.Ident)
+				if id == nil || printObj != nil {
+					continue
+				}
+				o := info.Defs[id]
+				if o == nil {
+					continue
+				}
+				ms := methodsOf(o.Type())
+				var names []string
+				for n := range ms {
+					names = append(names, n)
+				}
+				sort.Strings(names)
+				for _, n := range names {
+					md := ms[n]
+					if mo, ok := info.Defs[md.Name].(*types.Func); ok {
+						sig := mo.Type().(*types.Signature)
+						if sigString(sig) == "(string, ...any)" && callsFprintf(md.Body, info) && rg.printMethod == nil {
+							printObj, rg.printMethod = o, md
+						}
+					}
+				}
+				if printObj != nil {
+					for _, n := range names {
+						md := ms[n]
+						if mo, ok := info.Defs[md.Name].(*types.Func); ok && sigString(mo.Type().(*types.Signature)) == "(uint)" && rg.jumpMethod == nil {
+							lit := &ast.FuncLit{Body: md.Body}
+							if printsGoto(lit) {
+								rg.jumpMethod = md
+								rg.jumpLit = md
+							}
+						}
+					}
+				}
+			}
+		}
+	}
 	for i, st := range fd.Body.List {
 		if i < start || printObj == nil {
 			continue
@@ -1036,6 +1110,74 @@ func findRegion(r *Repo) *region {
 			rg.jumpLit, rg.jumpVar = lit, obj
 		}
 	}
+	if rg.compileLit == nil || rg.jumpLit == nil {
+		// the emitter may be an object with methods: a local of the region whose type has a method
+		// with the emitter's signature that the region calls through it (the other methods of that
+		// signature are its cases); its func(uint) method that prints a goto is the jump helper
+		methods := func(recvName string) map[types.Object]*ast.FuncDecl {
+			out := map[types.Object]*ast.FuncDecl{}
+			for _, f := range p.Syntax {
+				for _, d := range f.Decls {
+					md, ok := d.(*ast.FuncDecl)
+					if !ok || md.Recv == nil || md.Body == nil || len(md.Recv.List) != 1 || recvTypeName(md.Recv.List[0].Type) != recvName {
+						continue
+					}
+					if mo := info.Defs[md.Name]; mo != nil {
+						out[mo] = md
+					}
+				}
+			}
+			return out
+		}
+		for _, st := range rg.stmts {
+			ast.Inspect(st, func(n ast.Node) bool {
+				se, ok := n.(*ast.SelectorExpr)
+				if !ok {
+					return true
+				}
+				id, ok := se.X.(*ast.Ident)
+				if !ok {
+					return true
+				}
+				vo, ok := info.Uses[id].(*types.Var)
+				if !ok {
+					return true
+				}
+				t := vo.Type()
+				if pt, ok := t.(*types.Pointer); ok {
+					t = pt.Elem()
+				}
+				named, ok := t.(*types.Named)
+				if !ok || named.Obj().Pkg() != p.Types {
+					return true
+				}
+				ms := methods(named.Obj().Name())
+				md := ms[info.Uses[se.Sel]]
+				if md == nil {
+					return true
+				}
+				mo := info.Uses[se.Sel].(*types.Func)
+				if rg.compileLit == nil && sigString(mo.Type().(*types.Signature)) == "(*node, uint) bool" {
+					rg.compileLit, rg.objVar = md, vo
+				}
+				if rg.objVar == types.Object(vo) && rg.jumpLit == nil {
+					var names []types.Object
+					for o := range ms {
+						names = append(names, o)
+					}
+					sort.Slice(names, func(i, j int) bool { return names[i].Name() < names[j].Name() })
+					for _, o := range names {
+						jd := ms[o]
+						if sigString(o.Type().(*types.Signature)) == "(uint)" && printsGoto(&ast.FuncLit{Body: jd.Body}) {
+							rg.jumpLit, rg.jumpMethod = jd, jd
+							break
+						}
+					}
+				}
+				return true
+			})
+		}
+	}
 	if rg.compileLit == nil {
 		rg.problems = append(rg.problems, "the recursive emitter closure func(*node, uint) bool was not found")
 	}
@@ -1049,6 +1191,27 @@ func findRegion(r *Repo) *region {
 		rg.problems = append(rg.problems, "the rule-comment printer func(*node) was not found")
 	}
 	return rg
+}
+
+// print / jump: the region's own print helper and jump helper, called the way the region calls them.
+func (rg *region) print(it *Interp, env *Env, s string) {
+	if rg.printMethod != nil {
+		it.invoke(nil, &Closure{name: rg.printMethod.Name.Name, typ: rg.printMethod.Type, body: rg.printMethod.Body, lit: rg.printMethod, decl: rg.printMethod, env: newEnv(nil), recv: env.lookup(rg.printVar).v}, []Value{"%s", s})
+		return
+	}
+	it.callValue(nil, env.lookup(rg.printVar).v, []Value{"%s", s})
+}
+
+func (rg *region) jump(it *Interp, env *Env, ko Value) {
+	if rg.jumpMethod != nil {
+		recvVar := rg.printVar
+		if rg.objVar != nil {
+			recvVar = rg.objVar
+		}
+		it.invoke(nil, &Closure{name: rg.jumpMethod.Name.Name, typ: rg.jumpMethod.Type, body: rg.jumpMethod.Body, lit: rg.jumpMethod, decl: rg.jumpMethod, env: newEnv(nil), recv: env.lookup(recvVar).v}, []Value{ko})
+		return
+	}
+	it.callValue(nil, env.lookup(rg.jumpVar).v, []Value{ko})
 }
 
 func sigString(sig *types.Signature) string {
@@ -1237,10 +1400,10 @@ func (m *model) runStmts(rg *region, stmts []ast.Stmt) (em *emission) {
 				flag = "_pdm"
 			}
 		}
-		print := func(s string) { it.callValue(nil, env.lookup(rg.printVar).v, []Value{"%s", s}) }
+		print := func(s string) { rg.print(it, env, s) }
 		if oi.mayFail {
 			print(fmt.Sprintf("\n   if !__c%d%s() {", oi.idx, flag))
-			it.callValue(nil, env.lookup(rg.jumpVar).v, []Value{ko})
+			rg.jump(it, env, ko)
 			print("}")
 		} else {
 			print(fmt.Sprintf("\n   __c%d%s()", oi.idx, flag))
@@ -1253,7 +1416,7 @@ func (m *model) runStmts(rg *region, stmts []ast.Stmt) (em *emission) {
 	it.hooks[rg.printRule] = func(it *Interp, cl *Closure, args []Value) ([]Value, bool) {
 		n, _ := args[0].(*Obj)
 		if oi := m.oinfo(n); oi != nil {
-			it.callValue(nil, env.lookup(rg.printVar).v, []Value{"%s", fmt.Sprintf("e%d", oi.idx)})
+			rg.print(it, env, fmt.Sprintf("e%d", oi.idx))
 			return nil, true
 		}
 		return nil, false
